@@ -182,6 +182,11 @@ func parseJavadocTags(commentContent string) *model.Javadoc {
 }
 
 func buildGraphFromAST(node *sitter.Node, sourceCode []byte, graph *CodeGraph, currentContext *Node, file string) {
+	visitAST(node, sourceCode, graph, currentContext, file)
+	markInvokedMethods(graph)
+}
+
+func visitAST(node *sitter.Node, sourceCode []byte, graph *CodeGraph, currentContext *Node, file string) {
 	isJavaSourceFile := isJavaSourceFile(file)
 	switch node.Type() {
 	case "block":
@@ -973,9 +978,13 @@ func buildGraphFromAST(node *sitter.Node, sourceCode []byte, graph *CodeGraph, c
 	// Recursively process child nodes
 	for i := 0; i < int(node.ChildCount()); i++ {
 		child := node.Child(i)
-		buildGraphFromAST(child, sourceCode, graph, currentContext, file)
+		visitAST(child, sourceCode, graph, currentContext, file)
 	}
+}
 
+// markInvokedMethods flags every method declaration that some invocation in the graph
+// matches by name and argument count. It runs once per file, after the traversal.
+func markInvokedMethods(graph *CodeGraph) {
 	// iterate through method declaration from graph node
 	for _, node := range graph.Nodes {
 		if node.Type == "method_declaration" {
